@@ -496,13 +496,17 @@ example : Payment.convDomain jpyEur (some ⟨1500, 0⟩) ∧ Payment.convDomain 
 as it stands now; its Go structs are MAPPED onto the records of Model/Merge.lean
 and its `num` calls are the fields of the class `TaxTotals.NumOps`, read here
 with `faithfulOps` (the operations of Model/Num.lean that Model/Merge.lean is
-written with).  Proved for all arguments: `Matches`, `clone`,
-`matchRoundingPrecision`.  `Clone`, `Negate` and `Merge` write in place through
-slices of pointers (go2lean_own.go); they are translated completely, and related
-to the model on summaries with one category and one rate group (`…_partial`,
-for every such summary) and on the sample summaries of this file (kernel
-evaluation) — NOT yet for lists of any length, so their shape pins in `Expect`
-stay. -/
+written with).  Proved for ALL arguments: `Matches`, `clone`,
+`matchRoundingPrecision`, and `Clone`, `Negate`, `Merge` for summaries of any
+shape (`src_Clone`, `src_Negate`, `src_Merge`): the loops that write in place
+through slices of pointers (go2lean_own.go) are handled by the loop principles of
+Proofs/TaxTotalsSrc.lean (cursor loop, fill loop, inner loop with write-through,
+search loop with a found pointer).  `src_merge_figures_add`,
+`src_merge_order_independent`, `src_negate_flips_all` and `src_merge_negate_zero`
+restate the headline theorems of this file directly over the regenerated
+definitions.  What the translation cannot see — sharing between the operands and
+the result — stays with the harness; the shape pins in `Expect` stay (they are
+weaker, and cheap). -/
 namespace Src
 open GoblVerif.Generated GoblVerif.TaxTotals GoblVerif.Proofs.TaxTotalsSrc
 
@@ -620,49 +624,128 @@ theorem src_matchRoundingPrecision (rr : String) (a b : Amount) :
     @TaxTotalsSrc.matchRoundingPrecision faithfulOps rr a b = Merge.matchRoundingPrecision (rr == "currency") a b :=
   mrp_faithful rr a b
 
-/-! ### `Clone`, `Negate`, `Merge`: nil, one row, and the samples
-
-The full statements, NOT proved here (missing: the induction over the two list
-levels for the write-back loops, `foldl_cursor_map` is the one-level lemma):
-
-    ∀ t,    TaxTotalsSrc.Total_Clone  (some t) = some t.clone
-    ∀ t,    TaxTotalsSrc.Total_Negate (some t) = some t.negate
-    ∀ t t2, TaxTotalsSrc.Total_Merge  (some t) t2 = some (t.merge t2)            -/
+/-! ### `Clone`, `Negate`, `Merge`: summaries of any shape -/
 
 theorem src_Clone_nil : TaxTotalsSrc.Total_Clone none = none := Clone_none
 theorem src_Negate_nil [NumOps] : TaxTotalsSrc.Total_Negate none = none := Negate_none
 
-/-- `Clone` of an empty summary, and of every summary with one category and one rate group -/
-theorem src_Clone_one_row_partial (cd : String) (ret : Bool) (r : RateTotal) (am : Amount) (su : Option Amount)
+/-- **the regenerated `(*Total).Clone` returns a copy of its receiver**, whatever the numbers of
+    categories and rate groups (it calls no primitive; "a copy that shares nothing" is not visible in
+    the value reading and stays with the harness) -/
+theorem src_Clone (t : Total) : TaxTotalsSrc.Total_Clone (some t) = some t.clone := Clone_eq t
+
+/-- **the regenerated `(*Total).Negate` is `Total.negate`**, for every summary: all eight amounts
+    (category amount, precise amount, surcharge; base, amount, surcharge amount of every rate group;
+    sum, precise sum) in every category and every rate group -/
+theorem src_Negate (t : Total) : @TaxTotalsSrc.Total_Negate faithfulOps (some t) = some t.negate := Negate_eq t
+
+/-- **the regenerated `(*Total).Merge` is `Total.merge`**, for every pair of summaries: the search
+    for the category by code, the new category with cloned rates, the `else` branch with the category
+    surcharge added or copied, the search for the rate group by `Matches`, the appended clone and the
+    "merge the amounts" block with the rate surcharge added or copied -/
+theorem src_Merge (t t2 : Total) :
+    @TaxTotalsSrc.Total_Merge faithfulOps (some t) t2 = some (t.merge t2) := Merge_eq t t2
+
+/-- the shapes the earlier partial theorems covered, now corollaries: the empty summary and every
+    summary with one category and one rate group -/
+theorem src_Clone_one_row (cd : String) (ret : Bool) (r : RateTotal) (am : Amount) (su : Option Amount)
     (ap s sp : Amount) :
     TaxTotalsSrc.Total_Clone (some ⟨[], s, sp⟩) = some (Total.clone ⟨[], s, sp⟩) ∧
     TaxTotalsSrc.Total_Clone (some (oneRow cd ret r am su ap s sp)) = some (oneRow cd ret r am su ap s sp).clone :=
-  ⟨Clone_empty s sp, Clone_oneRow cd ret r am su ap s sp⟩
+  ⟨src_Clone _, src_Clone _⟩
 
-/-- `Negate` of every summary with one category and one rate group is the model's `negate`:
-    all eight amounts (category amount, precise amount, surcharge; base, amount, surcharge amount; sum, precise sum) -/
-theorem src_Negate_one_row_partial (cd : String) (ret : Bool) (r : RateTotal) (am : Amount) (su : Option Amount)
+theorem src_Negate_one_row (cd : String) (ret : Bool) (r : RateTotal) (am : Amount) (su : Option Amount)
     (ap s sp : Amount) :
     @TaxTotalsSrc.Total_Negate faithfulOps (some (oneRow cd ret r am su ap s sp)) =
       some (oneRow cd ret r am su ap s sp).negate :=
-  Negate_oneRow cd ret r am su ap s sp
+  src_Negate _
 
-/-- on the sample summaries (one category, two and one rate groups, a category surcharge on one side, a
-    rate-group surcharge, different spellings of 20%): the regenerated `Clone`, `Negate` and `Merge`, in
-    both orders and with the negation, give what the model gives (kernel evaluation) -/
-theorem src_Clone_Negate_Merge_on_samples_partial :
+/-- … and the sample summaries (one and two categories, a retained one, a category surcharge on one
+    side, a rate-group surcharge, an exempt row, different spellings of 20%), both orders -/
+theorem src_Clone_Negate_Merge_on_samples :
     TaxTotalsSrc.Total_Clone (some tA) = some tA.clone ∧
     @TaxTotalsSrc.Total_Negate faithfulOps (some tA) = some tA.negate ∧
     @TaxTotalsSrc.Total_Merge faithfulOps (some tA) tB = some (tA.merge tB) ∧
     @TaxTotalsSrc.Total_Merge faithfulOps (some tB) tA = some (tB.merge tA) ∧
     @TaxTotalsSrc.Total_Merge faithfulOps (some tA) tA.negate = some (tA.merge tA.negate) ∧
     @TaxTotalsSrc.Total_Merge faithfulOps (some tB) tC = some (tB.merge tC) ∧
-    @TaxTotalsSrc.Total_Merge faithfulOps (some tC) tA = some (tC.merge tA) := by
-  refine ⟨by decide +kernel, by decide +kernel, by decide +kernel, by decide +kernel, by decide +kernel,
-    by decide +kernel, by decide +kernel⟩
+    @TaxTotalsSrc.Total_Merge faithfulOps (some tC) tA = some (tC.merge tA) :=
+  ⟨src_Clone _, src_Negate _, src_Merge _ _, src_Merge _ _, src_Merge _ _, src_Merge _ _, src_Merge _ _⟩
+
+/-- the kernel also evaluates the regenerated definitions themselves on a sample (this does not go
+    through the theorems above: a check of the reading, and of the non-triviality of the samples) -/
+example : @TaxTotalsSrc.Total_Merge faithfulOps (some tC) tA = some (tC.merge tA) ∧
+    (tC.merge tA).categories.map (·.rates.length) = [1, 3] := by
+  refine ⟨by decide +kernel, by decide +kernel⟩
 
 example : (oneRow "VAT" false r10s ⟨300, 2⟩ (some ⟨156, 2⟩) ⟨0, 0⟩ ⟨456, 2⟩ ⟨0, 0⟩).negate.categories.map (·.surcharge) =
     [some ⟨-156, 2⟩] := by decide +kernel
+
+/-! ### `Total.Calculate` (as `DocumentRef.Calculate` uses it): the regenerated pieces are `Merge.calc*` -/
+
+/-- **the regenerated `calculateBaseCategoryTotal` is `calcCategory`**, for any number of rate groups -/
+theorem src_calculateBaseCategoryTotal (t : Total) (ct : CategoryTotal) (zero : Amount) (rr : String) :
+    (@TaxTotalsSrc.Total_calculateBaseCategoryTotal faithfulOps t ct zero rr).2 =
+      calcCategory (rr == "currency") zero ct := by
+  rw [@calcBase_eq faithfulOps]; exact calcCatG_faithful zero rr ct
+
+/-- **the regenerated `calculateFinalSum`** is the fold of `calcSumStep` from the empty list and zero -/
+theorem src_calculateFinalSum (t : Total) (zero : Amount) (rr : String) :
+    (@TaxTotalsSrc.Total_calculateFinalSum faithfulOps t zero rr).2 =
+      ⟨(t.categories.foldl (calcSumStep (rr == "currency") zero) ([], zero)).1,
+       (t.categories.foldl (calcSumStep (rr == "currency") zero) ([], zero)).2, t.sumP⟩ := by
+  rw [@calcFinalSum_eq faithfulOps, sumStep_fold]; simp
+
+/-- **the regenerated `round`** is `roundCategory` on every category, the sum kept as the precise sum -/
+theorem src_round (t : Total) (zero : Amount) :
+    (@TaxTotalsSrc.Total_round faithfulOps t zero).2 =
+      ⟨t.categories.map (roundCategory zero.exp), t.sum.rescale zero.exp, t.sum⟩ := by
+  rw [@round_eq faithfulOps]; rfl
+
+/-- **`calculateFinalSum` then `round` is `Total.calculate`** of Model/Merge.lean (the body of the Go
+    `Total.Calculate` after its nil test; `e` = the currency's subunit digits, `currency` = "the rule
+    key is `currency`"), for summaries of any shape -/
+theorem src_Calculate_body (t : Total) (e : ℕ) (rr : String) :
+    (@TaxTotalsSrc.Total_round faithfulOps (@TaxTotalsSrc.Total_calculateFinalSum faithfulOps t ⟨0, e⟩ rr).2 ⟨0, e⟩).2 =
+      t.calculate e (rr == "currency") := Calculate_body_faithful t e rr
+
+/-! ### the headline theorems, stated over the regenerated definitions
+
+The same statements as `merge_figures_add`, `merge_order_independent`,
+`negate_flips_all`, `merge_negate_zero` above, with the translated Go functions
+in the place of the model: the result of the regenerated `Merge` / `Negate` is
+never nil on a non-nil receiver (`∃ r, … = some r`), and it satisfies the
+specification. -/
+
+/-- **merge is component-wise**: for every pair of summaries at one precision the result of the
+    regenerated `Merge` passes the oracle of Spec/C20 — the total, every category amount and category
+    surcharge, and base, tax and surcharge of every rate group are the sums of the operands' figures -/
+theorem src_merge_figures_add (e : ℕ) (t1 t2 : Total) (h1 : uniform e t1 = true) (h2 : uniform e t2 = true) :
+    ∃ r, @TaxTotalsSrc.Total_Merge faithfulOps (some t1) t2 = some r ∧ mergeOracle e t1 t2 r = true :=
+  ⟨t1.merge t2, src_Merge t1 t2, merge_figures_add e t1 t2 h1 h2⟩
+
+/-- **order independence** of the regenerated `Merge`: both orders present the same figures -/
+theorem src_merge_order_independent (e : ℕ) (t1 t2 : Total) (h1 : uniform e t1 = true) (h2 : uniform e t2 = true) :
+    ∃ r r', @TaxTotalsSrc.Total_Merge faithfulOps (some t1) t2 = some r ∧
+      @TaxTotalsSrc.Total_Merge faithfulOps (some t2) t1 = some r' ∧ sameFigures r r' = true :=
+  ⟨t1.merge t2, t2.merge t1, src_Merge t1 t2, src_Merge t2 t1, merge_order_independent e t1 t2 h1 h2⟩
+
+/-- **negate flips all**: the result of the regenerated `Negate` is the negation of its receiver in
+    the sense of Spec/C20 (every amount, nothing else) -/
+theorem src_negate_flips_all (t : Total) :
+    ∃ r, @TaxTotalsSrc.Total_Negate faithfulOps (some t) = some r ∧ isNegationOf t r = true :=
+  ⟨t.negate, src_Negate t, negate_flips_all t⟩
+
+/-- **merge-negate-zero**: the regenerated `t.Merge(t.Negate())` has every amount zero, for every
+    summary without duplicate categories / rate groups (any precisions, any shape) -/
+theorem src_merge_negate_zero (t : Total) (h : noDuplicates t = true) :
+    ∃ n r, @TaxTotalsSrc.Total_Negate faithfulOps (some t) = some n ∧
+      @TaxTotalsSrc.Total_Merge faithfulOps (some t) n = some r ∧ allZero r = true :=
+  ⟨t.negate, t.merge t.negate, src_Negate t, src_Merge t t.negate, merge_negate_zero t h⟩
+
+/-- the hypotheses are satisfiable by non-trivial summaries -/
+example : uniform 2 tA = true ∧ uniform 2 tB = true ∧ noDuplicates tC = true ∧ tC.categories.length = 2 := by
+  decide +kernel
 
 end Src
 
